@@ -166,10 +166,14 @@ func TestVerifReplay(t *testing.T) {
 		var p *Password
 		var err error
 		var pn interface{}
-		func() {
-			defer func() { pn = recover() }()
-			p, err = r.Generate()
-		}()
+		// a pseudo-random stream, so that the draws can be counted: a refusal draws nothing, giving up after all attempts does
+		stream := make([]byte, 1<<15)
+		for j := range stream {
+			stream[j] = byte(rng.next() >> 16)
+		}
+		tpr := newTape(stream)
+		pn = vWithTape(tpr, func() { p, err = r.Generate() })
+		refused := err != nil && tpr.pos == 0
 		if pn != nil {
 			vReport(vHit{Input: in, Observed: vSprint("panic: ", pn), Required: "an error, never a panic"})
 			return
@@ -218,7 +222,7 @@ func TestVerifReplay(t *testing.T) {
 		}
 		failP := math.Pow(1-sp, float64(MaxTrials))
 		switch {
-		case failP < MaxFailRate/10 && err != nil && !strings.Contains(err.Error(), "couldn't generate"):
+		case failP < MaxFailRate/10 && refused:
 			vReport(vHit{Input: in, Observed: vSprint("refused: ", err), Required: vSprint("not refused: all ", MaxTrials, " attempts fail with probability ", failP, " <= ", MaxFailRate)})
 			return
 		case failP > MaxFailRate*10 && err == nil:
@@ -238,14 +242,22 @@ func TestVerifReplay(t *testing.T) {
 	} {
 		old := MaxTrials
 		MaxTrials = c.trials
-		p, err := c.r.Generate()
+		var p *Password
+		var err error
+		stream := make([]byte, 1<<16)
+		for j := range stream {
+			stream[j] = byte(rng.next() >> 16)
+		}
+		tpr := newTape(stream)
+		vWithTape(tpr, func() { p, err = c.r.Generate() })
+		refused := err != nil && tpr.pos == 0
 		MaxTrials = old
 		in := map[string]interface{}{"recipe": c.r, "MaxTrials": c.trials, "MaxFailRate": MaxFailRate}
-		if c.refuse && (err == nil || !strings.Contains(err.Error(), "too high")) {
+		if c.refuse && !refused {
 			vReport(vHit{Input: in, Observed: vSprint("password=", p != nil, " err=", err), Required: vSprint("refused: with ", c.trials, " permitted attempt(s) all fail with probability above the limit")})
 			return
 		}
-		if !c.refuse && err != nil && strings.Contains(err.Error(), "too high") {
+		if !c.refuse && refused {
 			vReport(vHit{Input: in, Observed: vSprint("refused: ", err), Required: vSprint("not refused: with ", c.trials, " permitted attempts the failure chance is far below the limit")})
 			return
 		}
